@@ -5,8 +5,10 @@ import BddVerif.Model.Substitute
 Driver for C07. The model (`Model/Substitute.lean`) is re-run and compared with the observed outcome; the
 property's predicate is evaluated on the OBSERVED result, without the model: for valid operands over the
 same `n` variables and `x < n`, the result is a valid diagram whose truth table is
-`v ↦ f (v[x := g v])` on all `2ⁿ` valuations, it is canonical (when `f` is, or whenever a new diagram was
-built), and the outcome is not a panic.
+`v ↦ f (v[x := g v])` on all `2ⁿ` valuations and the outcome is not a panic (nor a hang). Strictly the
+statement's clauses FAIL; validity / canonicity of the result (property C02) are tags `note-…` and agreement
+with the model; inputs outside the quantifier (65 535 variables, different variable counts, `x ≥ num_vars`,
+invalid operands) are agreement only.
 -/
 namespace B.Drive.C07
 open B B.Drive B.Ren B.Ren.Subst
@@ -18,7 +20,7 @@ def showOutcome : Outcome Arr → String
   | .err _ => "err"
   | .panic _ => "panic"
 
-def kindOf (res : String) : String := if res == "panic" then "panic" else "ok"
+def kindOf (res : String) : String := if res == "panic" then "panic" else if res == "hang" then "hang" else "ok"
 
 def firstFail (xs : List (Option String)) : Option String := xs.findSome? id
 
@@ -100,20 +102,23 @@ def handle (key : String) (ins obs : List String) : Verdict :=
       let n := numVars f
       let model := showOutcome (substitute f x g)
       let path := if !mentions f x then "unchanged" else if !mentions g x then "safe" else "clash"
-      -- the property: no panic and the composition, for operands over fewer than the maximum number of
-      -- variables; at 65 535 variables only the clash path may panic (documented: no proxy variable)
-      let valid := wfoB f n && wfoB g n && numVars g == n && (n + 1 < 65536 || path != "clash")
+      -- the property's quantifier, strictly by its statement: f, g valid diagrams over the same variables,
+      -- x one of these variables, fewer than the maximum number (65 535) of variables. Everything else
+      -- (65 535 variables, different variable counts, x ≥ num_vars, invalid operands) is agreement only.
+      let valid := wfoB f n && wfoB g n && numVars g == n && decide (x < n) && decide (n + 1 < 65536)
       let fail :=
         if !valid then none else
         match parseArr? res with
         | some r => firstFail [
-            if wfoB r n then none else some "result-not-a-valid-diagram",
+            -- the statement's clause: the value at every valuation (validity and canonicity of the result are
+            -- C02's; here they are notes in the tags and, through the model, agreement)
             if n > maxTT then
               (match compositionHolds f g r x with
                | some false => some "not-the-composition"
                | some true => none
                | none =>
-                 match compositionExact f g r x 6000000 with
+                 -- the exact walk presupposes an ordered result
+                 match (if wfoB r n then compositionExact f g r x 6000000 else none) with
                  | some false => some "not-the-composition(exact walk)"
                  | some true => none
                  | none => if compositionSampled f g r n x then none else some "not-the-composition(sampled)")
@@ -122,17 +127,21 @@ def handle (key : String) (ins obs : List String) : Verdict :=
                 let v := valOfIndex n i
                 let gv := evalArr g v
                 evalArr r v == evalArr f (fun y => if y = x then gv else v y)
-              then none else some "not-the-composition",
-            if (isCanon f || path != "unchanged") && !isCanon r then some "result-not-canonical" else none ]
-        | none => some ("outcome:" ++ res)
+              then none else some "not-the-composition" ]
+        | none => some ("outcome:" ++ res)   -- panic / hang inside the quantifier
+      let notes := match parseArr? res with
+        | some r =>
+          (if wfoB r n then [] else ["note-result-not-valid"]) ++
+          (if (isCanon f || path != "unchanged") && !isCanon r then ["note-result-not-canonical"] else [])
+        | none => []
       let extra :=
         (if mentions g x && (List.range n).any (fun y => y != x && mentions g y && !mentions f y) then ["g-has-foreign-var"] else []) ++
         (if isCanon f && isCanon g then [] else ["noncanonical-operand"])
       { agree := model == res, model, fail,
         nontrivial := valid && path != "unchanged" && g.size > 2,
-        tags := [path, s!"n{n}", if valid then "valid" else (if n + 1 < 65536 then "invalid-input" else "max-vars-clash"),
+        tags := [path, s!"n{n}", if valid then "valid" else (if ¬ n + 1 < 65536 then "max-vars" else if ¬ x < n then "x-not-a-variable" else "invalid-input"),
           kindOf res] ++ (if n ≥ 300 then ["boundary"] else []) ++
-          (if f.size > 65536 || g.size > 65536 then ["big-operand"] else []) ++ extra }
+          (if f.size > 65536 || g.size > 65536 then ["big-operand"] else []) ++ extra ++ notes }
     | _, _, _ => Verdict.bad "args"
   | _, _, _ => Verdict.bad ("key " ++ key)
 
